@@ -447,9 +447,9 @@ def run_c13(ctx, fa):
                 vt = "<<" + type(e).__name__ + ">>"
             c["variants"].append({"schema": proj.pj(raw), "text": proj.cps(vt), "kind": "embedded-parsed-child"})
         if tree2 is not None:
-            for rep in range(2):
+            for rep in range(4):
                 try:
-                    d = g.datum(ir, hints=False, omit=(rep == 0))      # the second datum names every field
+                    d = g.datum(ir, hints=False, omit=(rep == 0))      # all but the first datum name every field
                     fo = io.BytesIO()
                     fa.schemaless_writer(fo, raw, d)
                     data = fo.getvalue()
@@ -477,7 +477,7 @@ def run_c13(ctx, fa):
                         back4 = {"ok": False, "exc": proj.pexc(e)["exc"]}
                 ent = {"bytes": list(data), "back": back, "back2": back2, "back3": back3}
                 # a datum that names every field, written under the canonical form too: the same bytes
-                if rep == 1:
+                if rep >= 1:
                     try:
                         fo2 = io.BytesIO()
                         fa.schemaless_writer(fo2, tree2, d)
